@@ -60,6 +60,25 @@ let parse_op (t : string list) : op =
   | [ "SetPrec"; z; p ] -> OSetPrec (v z, zs p)
   | [ "SetMode"; z; m ] -> OSetMode (v z, mode_of m)
   | [ "SetInf"; z; b ] -> OSetInf (v z, bool_of b)
+  | [ "SetInt64"; z; x ] -> OSetInt64 (v z, zs x)
+  | [ "SetUint64"; z; x ] -> OSetUint64 (v z, zs x)
+  | [ "SetInt"; z; x ] -> OSetInt (v z, zs x)
+  | [ "SetRat"; z; n; d ] -> OSetRat (v z, zs n, zs d)
+  | [ "NewDecimal"; z; x; e ] -> ONewDecimal (v z, zs x, zs e)
+  | [ "SetMantExp"; z; m; e ] -> OSetMantExp (v z, v m, zs e)
+  | [ "MantExp"; x; "-" ] -> OMantExp (v x, None)
+  | [ "MantExp"; x; m ] -> OMantExp (v x, Some (v m))
+  | "SetBitsExp" :: z :: e :: _n :: ws -> OSetBitsExp (v z, zs e, List.map zs ws)
+  | [ "BitsExp"; x ] -> OBitsExp (v x)
+  | [ "MinPrec"; x ] -> OMinPrec (v x)
+  | [ "IsInt"; x ] -> OIsInt (v x)
+  | [ "Int64"; x ] -> OInt64 (v x)
+  | [ "Uint64"; x ] -> OUint64 (v x)
+  | [ "Int"; x ] -> OInt (v x)
+  | [ "Rat"; x ] -> ORat (v x)
+  | [ "GobEncode"; x ] -> OGobEncode (v x)
+  | [ "GobDecode"; z; h ] -> OGobDecode (v z, bytes_of_hex (if h = "-" then "" else h))
+  | [ "GobRoundTrip"; z; x ] -> OGobRoundTrip (v z, v x)
   | _ -> failwith ("unknown op: " ^ String.concat " " t)
 
 let print_dec buf (d : dec) =
